@@ -449,11 +449,51 @@ func c09QRCase(r *fw.Rec, v int, nposes int, sample bool) {
 	}
 }
 
+// c09QRLarge: versions 7..40 (the ones that carry version information), upright, the writer's
+// own quiet zone, 2..5 pixels per module: the dimension estimate of the locating stage is off by
+// a few modules for some of these clean images, and everything downstream has to cope with a
+// grid that does not fit the symbol.
+func c09QRLarge(r *fw.Rec, v int, nsym int) {
+	rng := r.Rng
+	rd := qrcode.NewQRCodeReader()
+	for i := 0; i < nsym; i++ {
+		s, ok := c09QRSymbol(rng, v)
+		if !ok {
+			continue
+		}
+		wh := map[gozxing.EncodeHintType]interface{}{gozxing.EncodeHintType_ERROR_CORRECTION: qrLibLevel[s.level]}
+		for k, val := range qrHints(s.version, s.mask, s.charset) {
+			wh[k] = val
+		}
+		bm, err := qrcode.NewQRCodeWriter().Encode(s.text, gozxing.BarcodeFormat_QR_CODE, 0, 0, wh)
+		if err != nil {
+			continue
+		}
+		full := bitMatrixToBools(bm)
+		for sc := 2; sc <= 5; sc++ {
+			p := c09Pose{Scale: sc, TryHarder: rng.Bool()}
+			out, _ := c09Outcome(r, "QR_CODE", rd, c09Render(full, p), p.hints(), s.text, c09Merge(s.info(), p), -1)
+			if out == "" {
+				return
+			}
+			c09Tally(r, "QR_CODE", p, out, true)
+			r.Tally("QR_CODE_large_upright_" + out)
+		}
+		r.Nontrivial(fmt.Sprintf("qrlarge|%s|%d", s.text, v))
+	}
+}
+
 // ---------------------------------------------------------------------------
 // Data Matrix
 // ---------------------------------------------------------------------------
 
 func c09DMCase(r *fw.Rec, k int, variant int, nposes int, sample bool) {
+	c09DMCaseT(r, k, variant, nposes, sample, false)
+}
+
+// c09DMCaseT: tight = every pose has a white border of exactly one pixel at scale 1 or 2, in all
+// four orientations (the locating stage then works at the very edge of the image).
+func c09DMCaseT(r *fw.Rec, k int, variant int, nposes int, sample bool, tight bool) {
 	rng := r.Rng
 	syms := dmref.Symbols()
 	s := syms[k]
@@ -510,6 +550,10 @@ func c09DMCase(r *fw.Rec, k int, variant int, nposes int, sample bool) {
 	for i := 0; i < nposes; i++ {
 		p := c09Pose{Scale: 1 + rng.Intn(6), Rot: 90 * rng.Intn(4), TryHarder: rng.Intn(4) == 0}
 		p.PadL, p.PadR, p.PadT, p.PadB = c09RandomPad(rng)
+		if tight {
+			p = c09Pose{Scale: 1 + i/4%2, Rot: 90 * (i % 4), TryHarder: i%3 == 0, PadL: 1, PadR: 1, PadT: 1, PadB: 1}
+			r.Tally("DATA_MATRIX_poses_with_one_pixel_border")
+		}
 		if rows >= 120 && p.Scale > 4 && rng.Bool() {
 			p.Scale = 1 + rng.Intn(4)
 		}
@@ -792,6 +836,14 @@ func c09(c *fw.Ctx) {
 		v := 1 + (i*7)%40
 		c.Run(fmt.Sprintf("qr/v%02d/%d", v, i), func(r *fw.Rec) { c09QRCase(r, v, 12, i < 2) })
 	}
+	nl := c.Pick(2, 12)
+	for v := 7; v <= 40; v++ {
+		for j := 0; j < nl; j++ {
+			v := v
+			c.Run(fmt.Sprintf("qrlarge/v%02d/%d", v, j), func(r *fw.Rec) { c09QRLarge(r, v, 30) })
+		}
+	}
+	c.Floor("QR_CODE_large_upright_read", int64(c.Pick(5000, 30000)))
 	// decoder-level sweep: many small symbols, upright and transposed, no poses - the mirrored retry
 	// only runs after the un-mirrored pass over garbage codewords has failed, so any weakness of that
 	// first pass (e.g. a Reed-Solomon decoder that "corrects" uncorrectable blocks) shows up as a
@@ -816,6 +868,9 @@ func c09(c *fw.Ctx) {
 		i := i
 		k := i % 30
 		c.Run(fmt.Sprintf("dm/%02d/%d", k, i), func(r *fw.Rec) { c09DMCase(r, k, i/30, 12, i < 2) })
+		if i < c.Pick(240, 3000) {
+			c.Run(fmt.Sprintf("dmtight/%02d/%d", k, i), func(r *fw.Rec) { c09DMCaseT(r, k, i/30, 8, false, true) })
+		}
 	}
 	// 1-D
 	no := c.Pick(120, 4000)
